@@ -119,6 +119,18 @@ def build_world(seed=WORLD_SEED):
     w['varr'] = VA(pd.DataFrame(vr, columns=['chromosome', 'start', 'end', 'ref', 'alt', 'somatic', 'zygosity', 'depth',
                                              'alt_count', 'alt_freq']), {'sample_id': 'S1'})
     w['chrom_sizes'] = {'chr1': 9000000, 'chr2': 5000000, 'chrX': 3000000}
+    w['chrom_sizes_partial'] = {'chr1': 9000000}            # chr2 of ga_a is not listed
+    # --- eight chromosomes of two arms each (a centromere-sized gap in the middle), one level per arm
+    many = []
+    for ci in range(1, 9):
+        pos = 10000
+        for i in range(110):
+            if i == 55:
+                pos += 2000000
+            many.append(('chr%d' % ci, pos, pos + 200, 'G%d_%d' % (ci, i // 5), (0.4 if i < 55 else -0.3) + rng.gauss(0, 0.02), 50.0, 1.0))
+            pos += 250
+    w['cnr_many'] = CNA(pd.DataFrame(many, columns=['chromosome', 'start', 'end', 'gene', 'log2', 'depth', 'weight']),
+                        {'sample_id': 'S1'})
     return w
 
 
@@ -173,6 +185,10 @@ def make_ops():
         'segment_none_variants': lambda w, p: segmentation.do_segmentation(w['cnr'], 'none', variants=w['varr'], processes=p),
         'center_all_copy': center,
         'merge': lambda w, p: w['ga_a'].merge(),
+        'merge_custom_combine': lambda w, p: w['ga_a'].merge(combine={'gene': lambda ser: 'LAST:' + str(list(ser)[-1])}),
+        'flatten_custom_combine': lambda w, p: w['ga_a'].flatten(combine={'gene': lambda ser: '|'.join(sorted(set(ser)))}),
+        'resize_partial_sizes': lambda w, p: w['ga_a'].resize_ranges(7, w['chrom_sizes_partial']),
+        'segment_none_many': lambda w, p: segmentation.do_segmentation(w['cnr_many'], 'none', processes=p),
         'flatten': lambda w, p: w['ga_a'].flatten(),
         'subtract': lambda w, p: w['ga_a'].subtract(w['ga_b']),
         'intersection': lambda w, p: w['ga_a'].intersection(w['ga_b'], mode='trim'),
@@ -195,7 +211,7 @@ def _shuffle_sorted(w):
     return c
 
 
-PARALLEL_OPS = ('segment_none', 'segment_haar')
+PARALLEL_OPS = ('segment_none', 'segment_haar', 'segment_none_many')
 CACHE_KEYS = ('chr_x', 'chr_y')
 
 
@@ -378,6 +394,7 @@ def run(ck, scratch):
             histories.append([(a, 1), (b, 1)])
     # make sure 16 processes is exercised at least once in quick as well
     histories.append([('segment_none', 16), ('segment_haar', 2)])
+    histories.append([('segment_none_many', 2), ('segment_none_many', 3), ('merge_custom_combine', 1), ('merge', 1), ('flatten_custom_combine', 1), ('flatten', 1)])
     for h in histories:
         done = []
         for (n, pr) in h:
